@@ -125,6 +125,20 @@ def gen_runs(rng, oracle, pool, tier):
                 inner['ch'].append(dict(linked, name='again'))
             t = [F('A.sol', pick(rng)), linked, lf, inner]
             runs.append(Run(t, cat, ps, 'symlink'))
+    # 3d. identical copies of a file (same name, same content) in different directories, with another file of the
+    #     same patterns before / between / after them in the listing: every copy is a finding of its own
+    for cat in cats:
+        ps = pick_ps(rng, oracle, cat)
+        pick = content_picker(oracle, pool, cat, ps)
+        if pick is None:
+            continue
+        c1, c2 = pick(rng), pick(rng)
+        for where in range(3):
+            dirs = [[F('Token.sol', c1)], [F('Token.sol', c1)], []]
+            dirs[where].append(F('Other.sol', c2))
+            runs.append(Run([D('a', dirs[0]), D('b', dirs[1]), D('m', dirs[2])], cat, ps, 'copies'))
+        runs.append(Run([F('Token.sol', c1), D('legacy', [F('Token.sol', c1)]), D('v2', [F('Token.sol', c2)])], cat, ps, 'copies'))
+        runs.append(Run([D('x', [D('y', [F('Token.sol', c1)]), F('Token.sol', c1)]), F('Token.sol', c1)], cat, ps, 'copies'))
     # 4. runs that must abort: an eligible file that is unreadable / rejected by the parser /
     #    panics a detector, somewhere in the tree; and the same with an empty pattern list
     bad = [c for n, c in pool if not all(oracle.good_for(c, cat, oracle.names(cat)) for cat in cats)]
